@@ -3302,7 +3302,14 @@ impl Gen<'_> {
         self.open("start");
         self.push_scope();
         self.line(&format!("do {h}({p}) start return {r1}{plus} end"));
-        self.line(&format!("do user({p}) start return {h}({p}) end"));
+        // one, two or three call SITES of the same callee in one function (seed C06-d1: a binding table that
+        // keeps one entry per (caller, callee) pair; the later sites then fall back to by-name lookup)
+        match self.below(4) {
+            0 => self.line(&format!("do user({p}) start return {h}({p}) end")),
+            1 => self.line(&format!("do user({p}) start return {h}({p}) add {h}({p}) times 2 end")),
+            2 => self.line(&format!("do user({p}) start make a get {h}({p}) make b get {h}({p}) return a add b add {h}({p}) end")),
+            _ => self.line(&format!("do user({p}) start if to say ({h}({p}) pass 0) start return {h}({p}) end return 0 minus {h}({p}) end")),
+        }
         if self.ch(1, 2) {
             self.line(&format!("do relay({p}) start return user({p}) add 100 end"));
         } else {
@@ -5043,11 +5050,52 @@ fn self_mutation_cases(out: &mut Vec<(String, String)>) {
     }
 }
 
+/// Data-shape family of the C06 product: degenerate and nested array shapes (empty, nested empty at every
+/// depth and position, emptied at run time by `pop()`, mixed element types) × every array method and every
+/// construct that walks a value recursively (`join`, display, interpolation, equality, `to_string`, copy into
+/// another array, return from a function), as literals and routed through a parameter (seed C06-d2: a
+/// recursive `join` whose inner call skipped the non-empty check of the public entry).
+fn data_shape_cases(out: &mut Vec<(String, String)>) {
+    let shapes: [(&str, &str); 14] = [
+        ("empty", "[]"),
+        ("one_empty", "[[]]"),
+        ("empty_first", "[[], 1]"),
+        ("empty_last", "[1, []]"),
+        ("empty_mid", "[\"a\", [], \"b\"]"),
+        ("two_empty", "[[], []]"),
+        ("deep_empty", "[[[]]]"),
+        ("deep_mixed", "[1, [2, [], [3, [[]]]], \"s\"]"),
+        ("empty_strings", "[\"\", \"\", []]"),
+        ("nulls", "[null, [null], []]"),
+        ("bools", "[true, [false, []]]"),
+        ("singleton_deep", "[[[[7]]]]"),
+        ("wide", "[[], [1], [1, 2], [], [1, 2, 3]]"),
+        ("nested_strings", "[[\"x\", [\"y\"]], []]"),
+    ];
+    let uses = "shout(a.join(\"-\"))\nshout(a.join(\"\"))\nshout(a.len())\nshout(a)\nshout(\"<{a}>\")\nshout(to_string(a))\n\
+                shout(typeof(a))\nshout([a, a].join(\"|\"))\nmake b get a\nb.reverse()\nshout(b.join(\",\"))\nshout(a.join(\",\"))\n\
+                b.push([])\nshout(b.join(\"+\"))\nshout(b.len())\n";
+    for (tag, lit) in shapes {
+        for route in ["literal", "parameter", "emptied"] {
+            let core = match route {
+                "literal" => format!("make a get {lit}\n{uses}"),
+                "parameter" => format!("do f(a) start\n{uses}return a end\nshout(f({lit}).join(\"/\"))\n"),
+                // the inner arrays lose their elements at run time: the static shape says nothing
+                _ => format!(
+                    "make a get {lit}\nmake row get [1, 2]\nrow.pop()\nrow.pop()\na.push(row)\nmake filled get [[9]]\nfilled[0].pop()\na.push(filled)\n{uses}"
+                ),
+            };
+            out.push((format!("sink=data.{tag};type=array;route={route}"), format!("shout(\"begin\")\n{core}shout(\"done\")\n")));
+        }
+    }
+}
+
 /// The complete finite C06 product: (tag, program text). Deterministic, no rng.
 pub fn product_cases() -> Vec<(String, String)> {
     let mut out = Vec::new();
     numeric_cases(&mut out);
     self_mutation_cases(&mut out);
+    data_shape_cases(&mut out);
     for s in product_sinks() {
         for (ty, value) in PRODUCT_TYPES {
             for route in PRODUCT_ROUTES {
